@@ -29,9 +29,12 @@ SPECS = {
     'CNorm': (['c2'], ['v2']),       # ComplexNorm
     'Re': (['c2'], ['v2']),          # RealPart
     'Im': (['c2'], ['v2']),          # ImagPart
+    'Diff3': (['v3'], ['s']),        # x[0] - x[1]: hands a sensitivity [g, -g, 0] (entries cancel) to its input
+    'RevIn': (['v3'], ['v3']),       # consumes x[::-1] (a slice as long as its base, in another order) through Sq
+    'PermIn': (['v3'], ['v3']),      # consumes x[[2, 0, 1]] through Sq
 }
 COMPLEX_SUB = ['MkC', 'CNorm', 'Re', 'Im', 'Sq2']
-USER_ONLY = ['Sq3', 'Sq2', 'L32', 'L23', 'Mul3', 'Mul2', 'Fan3', 'SlIn', 'SlOut', 'SMul3']
+USER_ONLY = ['Sq3', 'Sq2', 'L32', 'L23', 'Mul3', 'Mul2', 'Fan3', 'SlIn', 'SlOut', 'SMul3', 'Diff3', 'RevIn', 'PermIn']
 
 
 def forward(name, xs):
@@ -87,6 +90,16 @@ def forward(name, xs):
     if name == 'Im':
         z = xs[0]
         return [z[2:]], [[np.hstack([np.zeros((2, 2)), np.eye(2)])]]
+    if name == 'Diff3':
+        x = xs[0]
+        return [np.array([x[0] - x[1]])], [[np.array([[1.0, -1.0, 0.0]])]]
+    if name in ('RevIn', 'PermIn'):
+        idx = [2, 1, 0] if name == 'RevIn' else [2, 0, 1]
+        P = np.zeros((3, 3))
+        for r, cidx in enumerate(idx):
+            P[r, cidx] = 1
+        x = P @ xs[0]
+        return [x * x + x], [[np.diag(2 * x + 1) @ P]]
     raise KeyError(name)
 
 
